@@ -30,6 +30,7 @@ type obsState struct {
 	Ph      int                 `json:"ph"`
 	Eh      int                 `json:"eh"`
 	Dur     int                 `json:"dur"`
+	Tipd    int                 `json:"tipd"` // chain tip height - proof height
 	Rk      string              `json:"rk"`
 	Hk      string              `json:"hk"`
 	Match   bool                `json:"match"`
@@ -92,7 +93,10 @@ func (tr *tracer) describe(rev types.V2FileContract, roots []types.Hash256, rene
 	o.Rk, o.Hk = tr.keyName(rev.RenterPublicKey), tr.keyName(rev.HostPublicKey)
 	o.Match = proto4.MetaRoot(roots) == rev.FileMerkleRoot && uint64(len(roots))*proto4.SectorSize == rev.Filesize
 	o.Sigs = SigsOK(rev)
-	o.Chain = rev.RevisionNumber == 0 || renewed || ConsensusAccepts(tr.e, a.K.ID, rev) == nil
+	o.Tipd = int(tr.e.CM.Tip().Height) - int(rev.ProofHeight)
+	// acceptable to consensus on the real chain state -- as long as the proof window has not opened (afterwards
+	// no revision can be confirmed any more; every commit is judged when it is made, see CheckCommit)
+	o.Chain = rev.RevisionNumber == 0 || renewed || o.Tipd >= 0 || ConsensusAccepts(tr.e, a.K.ID, rev) == nil
 	if balances {
 		var accs, pools []proto4.Account
 		for _, n := range TraceAccounts {
@@ -161,6 +165,8 @@ func argFields(ev map[string]any, act Act, renewal func() map[string]int64) {
 		ev["a"], ev["sec"], ev["tf"], ev["pf"] = act.A, act.Sec, act.Tf, act.Pf
 	case "BeginBalance":
 		ev["a"] = act.A
+	case "Mine":
+		ev["n"] = act.N
 	case "BeginRenew":
 		ev["kind"], ev["pf"], ev["cf"], ev["rf"], ev["na"], ev["nc"] = act.Kind, act.Pf, act.Cf, act.Rf, act.NA, act.NC
 	}
@@ -234,7 +240,7 @@ func (tr *tracer) reset(stored []int, pex []string, att map[string][]string) {
 	}
 	sort.Ints(stored)
 	tr.n, tr.hist, tr.bad, tr.why = 0, nil, false, ""
-	tr.tw.Emit(map[string]any{"op": "Reset", "tag": tr.tag, "st": o, "up": tr.e.UP, "stored": stored, "pex": pex, "att": att})
+	tr.tw.Emit(map[string]any{"op": "Reset", "tag": tr.tag, "tipd": o.Tipd, "st": o, "up": tr.e.UP, "stored": stored, "pex": pex, "att": att})
 	tr.res.Traces++
 }
 
